@@ -143,3 +143,26 @@ impl RttEstimator {
         };
     }
 }
+
+#[cfg(feature = "verif")]
+impl RttEstimator {
+    /// Verification hook: exact internal state (phase, rto, srtt, rttvar) in nanoseconds.
+    pub fn verif_state(&self) -> [u64; 4] {
+        #[cfg(not(test))]
+        let RttEstimator { state } = *self;
+        #[cfg(test)]
+        let RttEstimator {
+            state,
+            forced_timeout: _,
+        } = *self;
+        match state {
+            RttState::Initial { rto } => [0, rto.as_nanos() as u64, 0, 0],
+            RttState::Subsequent { rto, srtt, rttvar } => [
+                1,
+                rto.as_nanos() as u64,
+                srtt.as_nanos() as u64,
+                rttvar.as_nanos() as u64,
+            ],
+        }
+    }
+}
